@@ -54,6 +54,16 @@ class StateVector(np.ndarray):
 
         object.__setattr__(self, "_data", obj._data.copy())
 
+    @property
+    def base(self):
+        """Plain array sharing the memory of this object
+
+        An unpickled array owns its memory (``ndarray.base`` is ``None``), which
+        made ``copy()`` and every form or frame change fail after a pickle round trip.
+        """
+        base = super().base
+        return base if base is not None else self.view(np.ndarray)
+
     def __reduce__(self):
         """For pickling
 
